@@ -164,7 +164,14 @@ def _value_to_cst(value: Any) -> cst.BaseExpression:  # noqa: C901
     if isinstance(value, bytes):
         return cst.SimpleString(repr(value))
     if isinstance(value, complex):
-        return cst.SimpleString(repr(value))
+        # complex(<real>, <imag>): repr(value) is an expression, not a string literal.
+        return cst.Call(
+            func=cst.Name("complex"),
+            args=[
+                cst.Arg(value=_make_float_literal(value.real)),
+                cst.Arg(value=_make_float_literal(value.imag)),
+            ],
+        )
     if tu.is_enum(type(value)):
         # EnumClass.MEMBER
         class_name = type(value).__name__
